@@ -47,8 +47,10 @@ def run(ctx):
     binary = ctx.go_build("corrupt")
     nb = 3 if thorough else 2
 
-    # 1. exhaustive over the taxonomy: the design-level reader satisfies the property ...
-    r = ctx.tlc("MC_Corrupt", cfg_text=cfg(nb, None, INV), name="mc-strict", coverage=thorough, timeout=3000)
+    # 1. exhaustive over the taxonomy: the design-level reader satisfies the property; the same run exports every case
+    #    with the outcome classes the spec allows (Gen_Corrupt = Corrupt + the export constraint; -workers 1)
+    r = ctx.tlc("Gen_Corrupt", cfg_text=cfg(nb, None, INV + "\nCONSTRAINT ExportCase"), name="mc-strict", coverage=thorough,
+                timeout=4000, workers=1)
     if not r.ok:
         raise vlib.Inconclusive("strict Corrupt spec violates its own properties: %s %s" % (r.violated, (r.error or "")[:500]))
     ctx.extra["mc_strict"] = r.summary()
@@ -59,12 +61,7 @@ def run(ctx):
     if r2.ok or r2.violated != "ReadBounded":
         raise vlib.Inconclusive("as-built Corrupt spec does not violate ReadBounded: %s %s" % (r2.violated, (r2.error or "")[:300]))
     ctx.extra["asbuilt_witness_violates"] = r2.violated
-
-    # 2. the cases with their allowed outcome classes, computed by TLC
-    rg = ctx.tlc("Gen_Corrupt", cfg_text=cfg(nb, DEV, "CONSTRAINT ExportCase"), workers=1, name="gen-cases", count_states=False,
-                 timeout=3000)
-    if not rg.ok:
-        raise vlib.Inconclusive("case export failed: %s %s" % (rg.violated, (rg.error or "")[:300]))
+    rg = r
     exported = []
     for ln in rg.printed:
         try:
@@ -84,7 +81,7 @@ def run(ctx):
             pairs.setdefault(k, o)
     pairs = list(pairs.values())
     rng.shuffle(pairs)
-    npairs = 1500 if thorough else 120
+    npairs = 1500 if thorough else 70
     chosen = []
     for o in singles:
         d = o["c"]["ds"]
@@ -116,7 +113,7 @@ def run(ctx):
             cid = len(cases) + 1
             cases.append(dict(id=cid, s=o["c"]["s"], ds=o["c"]["ds"], variants=v, raw=0))
             meta[cid] = dict(allowed=o["allowed"], huge=o["huge"])
-        for rawkind, n in ((1, 150 if thorough else 30), (2, 150 if thorough else 30), (3, 150 if thorough else 30)):
+        for rawkind, n in ((1, 150 if thorough else 15), (2, 150 if thorough else 20), (3, 150 if thorough else 15)):
             o = by.get(key(raw_as[rawkind])) or by.get(key(dict(s=raw_as[rawkind]["s"], ds=list(reversed(raw_as[rawkind]["ds"])))))
             if o is None:
                 raise vlib.Inconclusive("taxonomy case for random byte strings of kind %d not found" % rawkind)
@@ -149,7 +146,7 @@ def run(ctx):
         ctx.count_case([c["s"], c["ds"], c["raw"], o["variant"]], nontrivial=ob.get("changed", True))
         replay = dict(kind="case", case=dict(c, variants=o["variant"] + 1), expected=exp, seed=ctx.seed, observed=ob)
         if cls in ("died", "hung"):
-            # a reader that is killed for lack of memory, or makes no progress for 75 seconds, on a file where it may
+            # a reader that is killed for lack of memory, or makes no progress for 45 seconds, on a file where it may
             # allocate a forged size is the known finding; an unexplained hang is a time-out, hence inconclusive
             if exp["huge"]:
                 ctx.deviation(FID, "%s: the reading process %s (spec allows %s)" % (desc, cls, sorted(allowed)), replay)
@@ -157,7 +154,7 @@ def run(ctx):
                 nviol += 1
                 ctx.deviation(None, "%s: the reading process died (spec allows %s)" % (desc, sorted(allowed)), replay)
             else:
-                raise vlib.Inconclusive("%s: the reading process made no progress for 75 seconds" % desc)
+                raise vlib.Inconclusive("%s: the reading process made no progress for 45 seconds" % desc)
             continue
         if cls not in allowed:
             nviol += 1
